@@ -35,11 +35,12 @@ type Up4Params struct {
 	AddFlows  bool   `json:"addFlows"`
 	Snap      bool   `json:"snap"`
 	Race      bool   `json:"race"`
-	Wide      bool   `json:"wide"`    // boundary values (C16)
-	Pfd       bool   `json:"pfd"`     // the application filters are provisioned as PFDs and half of the flows name the application (C08 on UP4)
-	Markers   int    `json:"markers"` // C14: 1 = end markers enabled and asked for, 2 = asked for but disabled in the configuration
-	Drain     int    `json:"drain"`   // C16: one scenario first establishes this many sessions that hold meter cells, until the pools are empty (tables not recorded)
-	Faults    bool   `json:"faults"`  // a quarter of the steps have one of their first writes failed by the switch (C14: no marker for a rejected update)
+	Wide      bool   `json:"wide"`     // boundary values (C16)
+	Pfd       bool   `json:"pfd"`      // the application filters are provisioned as PFDs and half of the flows name the application (C08 on UP4)
+	Markers   int    `json:"markers"`  // C14: 1 = end markers enabled and asked for, 2 = asked for but disabled in the configuration
+	Drain     int    `json:"drain"`    // C16: one scenario first establishes this many sessions that hold meter cells, until the pools are empty (tables not recorded)
+	FaultDel  bool   `json:"faultDel"` // half of the Session Deletion Requests have one of their writes failed by the switch (C05: a refused deletion changes nothing)
+	Faults    bool   `json:"faults"`   // a quarter of the steps have one of their first writes failed by the switch (C14: no marker for a rejected update)
 }
 
 func up4Cfg(rng *rand.Rand, n4 string) agent.Cfg {
@@ -158,6 +159,18 @@ func e2eUp4Worker(args []string) error {
 
 			sum.Stats["drain_sessions"] += g.LiveCount()
 			g.ForceSessQer, g.OneFlow, g.AlwaysQer = false, false, false
+		}
+
+		if p.FaultDel {
+			g.BeforeDelete = func() {
+				if rng.Intn(2) == 0 {
+					// (the first write of the deletion: nothing of the session is gone when the request is refused.  A deletion
+					// refused after some of its writes were carried out cannot be repeated on the unchanged tree - the entries that
+					// are gone answer NOT_FOUND and the agent refuses again; known finding F-UP4-HALF-DELETED, DESIGN 11.5)
+					w.P4Fault = &e2e.P4FaultPlan{K: 1, Mode: "rpc", Code: codes.Unavailable}
+					sum.Stats["faults_armed"]++
+				}
+			}
 		}
 
 		for i := 0; i < p.Steps; i++ {
